@@ -83,3 +83,24 @@ example : Mirror 3 tEx (regAll 3 tEx) := ctor_mirror 3 tEx
 #guard !mirrorB 3 (clearStepR 2 tEx (regAll 3 tEx) [0]).1 (regAll 3 tEx)
 end
 end Ft
+
+namespace Ft
+open StrictTotal
+open List
+section
+variable {ν : Type} [DecidableEq ν]
+
+/-- **fiber assignment** (`f <<= g` at any fiber of the tensor): unregistering what was below and
+    registering the fibers of the assigned copy keeps the mirror -/
+theorem assign_mirror (dflt : ν) (d : Nat) (t : Tree Int ν (d + 1)) (R : RankLists Int) (q : List Int)
+    (g : TreeArg ν) (h : WF (d + 1) t) (hm : Mirror (d + 1) t R) :
+    Mirror (d + 1) (assignStepR dflt d t R q g).1 (assignStepR dflt d t R q g).2 := by
+  unfold assignStepR
+  cases hloc : locate d t q with
+  | none => exact hm
+  | some x =>
+    obtain ⟨d', s⟩ := x
+    exact replace_mirror (fiberStep dflt (.assignF q g)) d t R q d' s h hm hloc
+
+end
+end Ft
